@@ -14,14 +14,14 @@ def seeds_table():
     head = "| seed | change | needs to manifest | caught by | first run | confirmed |\n|---|---|---|---|---|---|\n"
     # first-run statistics per round (a seed counts as caught only if the check of ITS OWN property named it when it arrived)
     import collections
-    stats = {1: collections.Counter(), 2: collections.Counter(), 3: collections.Counter(), 4: collections.Counter(), 5: collections.Counter()}
+    stats = {i: collections.Counter() for i in range(1, 8)}
     for name in sorted(os.listdir(f"{V}/seeded")):
         mp = f"{V}/seeded/{name}/meta.json"
         if os.path.exists(mp):
             m = json.load(open(mp))
-            stats[5 if "-r5-" in name else 4 if "-r4-" in name else 3 if "-r3-" in name else 2 if "-r2-" in name else 1][(name.split("-")[0], m.get("detection"))] += 1
+            stats[7 if "-r7-" in name else 6 if "-r6-" in name else 5 if "-r5-" in name else 4 if "-r4-" in name else 3 if "-r3-" in name else 2 if "-r2-" in name else 1][(name.split("-")[0], m.get("detection"))] += 1
     lines = []
-    for rnd in (1, 2, 3, 4, 5):
+    for rnd in range(1, 8):
         if not stats[rnd]:
             continue
         c = stats[rnd]
